@@ -3,7 +3,7 @@ import random
 import warnings
 import numpy as np
 
-from .. import tlc, ftable
+from .. import ftable
 from ..common import MachineryError, seed, quiet
 from . import _sysalg_world as W
 from . import _sysalg_ops as O
@@ -20,35 +20,60 @@ def cfg(invariants=INV, **kw):
             "".join(f"INVARIANT {i}\n" for i in invariants) + "CHECK_DEADLOCK FALSE\n"), d
 
 
-def build_real(kind, sysd, phonon=False):
-    """real system of the kind from its abstract description"""
-    a = sysd
-    if kind == "SOC":
-        soc = W.make_soc(W.build(a["up"]), W.build(a["dn"]))
-        if a["hassoc"]:
-            W.set_soc(soc, a, 1, 1)          # theta = phi = pi/2 in the catalogue and in the records; P is part of the abstract data
-        return soc, a
-    if kind == "R":
-        real = W.build(a)
-        if phonon:
-            real.is_phonon = True
-        return real, a
-    # k.p system: the lattice Hamiltonian as a function of the reduced k-vector
+def kp_system(a, lattice, cartesian):
+    """k.p system: the lattice Hamiltonian as a function of the reduced (or, on a non-cubic cell, Cartesian) k-vector"""
     from wannierberri.system.system_kp import SystemKP
     rs = a["rs"]
     mats = np.array([a["H"][R] for R in rs])
     Rarr = np.array(rs, dtype=float)
+    recip = 2 * np.pi * np.linalg.inv(lattice).T
+    rinv = np.linalg.inv(recip)
 
     def ham(k):
-        return np.tensordot(np.exp(2j * np.pi * Rarr.dot(np.asarray(k, dtype=float))), mats, axes=(0, 0))
+        kr = np.asarray(k, dtype=float) @ rinv if cartesian else np.asarray(k, dtype=float)
+        return np.tensordot(np.exp(2j * np.pi * Rarr.dot(kr)), mats, axes=(0, 0))
     with quiet(), warnings.catch_warnings():
         warnings.simplefilter("ignore")
-        real = SystemKP(Ham=ham, kmax=None, real_lattice=np.eye(3), k_vector_cartesian=False, finite_diff_dk=1e-3)
-    return real, a
+        real = SystemKP(Ham=ham, kmax=None, real_lattice=np.array(lattice, dtype=float), k_vector_cartesian=bool(cartesian), finite_diff_dk=1e-3)
+    if np.max(np.abs(np.asarray(real.recip_lattice) - recip)) > 1e-12:
+        raise MachineryError("SystemKP: reciprocal lattice convention differs from the harness's")
+    return real
 
 
-def corner_energies(real, shape, nk, kp, h, verts):
-    """E_K_corners_parallel / _tetra of the real data_K object and of its own reference implementation (direct evaluation)"""
+def build_real(kind, a, phonon=False, skew=False):
+    """real system of the kind from its abstract description (harness-side set-up; SystemSOC(up) when up and down coincide)"""
+    lattice = W.LAT_SKEW if skew else W.LAT_ID
+    if kind == "SOC":
+        nspin = 1 if W.sys_json(a["up"]) == W.sys_json(a["dn"]) else 2
+        soc = W.make_soc(W.build(a["up"], lattice=lattice), None if nspin == 1 else W.build(a["dn"], lattice=lattice))
+        if a["hassoc"]:
+            W.set_soc(soc, a, 1, 1, nspin=nspin)          # theta = phi = pi/2 in the catalogue and in the records; P is part of the abstract data
+        return soc, nspin
+    if kind == "R":
+        real = W.build(a, lattice=lattice)
+        if phonon:
+            real.is_phonon = True
+        return real, 0
+    return kp_system(a, lattice, cartesian=skew), 0
+
+
+def corner_points(shape, nk, kp, h, verts):
+    """the corner k-points in quarters, [grid point][corner] (grid.points_FFT order: z fastest; corners in the order of the code)"""
+    nk = [int(x) for x in nk]
+    out = []
+    for ix in range(nk[0]):
+        for iy in range(nk[1]):
+            for iz in range(nk[2]):
+                kg = np.array([ix * 4 // nk[0], iy * 4 // nk[1], iz * 4 // nk[2]]) + np.array(kp)
+                if shape == "par":
+                    out.append([tuple(kg + (2 * np.array(c) - 1) * np.array(h)) for c in CORNERS])
+                else:
+                    out.append([tuple(kg + np.array(v)) for v in verts])
+    return out
+
+
+def data_k(real, shape, nk, kp, h, verts, **window):
+    """harness-side construction of the data_K object for one K-point of the grid (not under test: failures here are the harness's)"""
     import wannierberri as wb
     from wannierberri.data_K import get_data_k_class_from_system
     from wannierberri.grid.Kpoint import KpointBZparallel
@@ -63,34 +88,59 @@ def corner_energies(real, shape, nk, kp, h, verts):
             Kp = KpointBZparallel(K=np.array(kp) * nk / 4.0, dK=np.array(h) * nk / 2.0, NKFFT=nk)
         else:
             Kp = KpointBZtetra(vertices=np.array(verts, dtype=float) * nk[None, :] / 4.0, K=np.array(kp) * nk / 4.0, NKFFT=nk)
-            if np.max(np.abs(Kp.vertices_fullBZ * 4 - np.array(verts))) > 1e-12 or np.max(np.abs(Kp.Kp_fullBZ * 4 - np.array(kp))) > 1e-12:
+            if np.max(np.abs(Kp.vertices_fullBZ * 4 - np.array(verts))) > 1e-12:
                 raise MachineryError("tetrahedron K-point not as intended")
+        if np.max(np.abs(Kp.Kp_fullBZ * 4 - np.array(kp))) > 1e-12:
+            raise MachineryError("K-point not as intended")
         cls = get_data_k_class_from_system(real)
-        d = cls(real, dK=Kp.Kp_fullBZ, grid=grid, Kpoint=Kp)
-        E = d.E_K_corners_parallel() if shape == "par" else d.E_K_corners_tetra()
-        d2 = cls(real, dK=Kp.Kp_fullBZ, grid=grid, Kpoint=Kp)
-        Eref = d2.E_K_corners_parallel_test() if shape == "par" else d2.E_K_corners_tetra_test()
-    E = np.array(E)
-    Eref = np.array(Eref)
+        return cls(real, dK=Kp.Kp_fullBZ, grid=grid, Kpoint=Kp, **window)
+
+
+def corner_call(d, shape, centre_first=False):
+    """the call under test"""
+    with quiet(), warnings.catch_warnings():
+        warnings.simplefilter("ignore")
+        if centre_first:
+            _ = d.E_K                      # the order of use in Data_K.tetraWeights: the centre energies first
+        E = np.array(d.E_K_corners_parallel() if shape == "par" else d.E_K_corners_tetra())
     if shape == "par":
         E = E.reshape(E.shape[0], 8, E.shape[-1])
-        Eref = Eref.reshape(Eref.shape[0], 8, Eref.shape[-1])
-    return E, Eref
+    return E
 
 
-def expected_spectra(state_ham, shape, phonon=False):
+def direct_energies(real, pts):
+    """the class's own evaluation at the corner k-points: [grid point][corner] -> spectrum"""
+    flat = [k for row in pts for k in row]
+    e = W.real_ek(real, flat)
+    return np.array(e).reshape(len(pts), len(pts[0]), -1)
+
+
+def helper_energies(d2, shape):
+    """E_K_corners_*_test of the package, when it (still) exists: information only"""
+    f = getattr(d2, "E_K_corners_parallel_test" if shape == "par" else "E_K_corners_tetra_test", None)
+    if f is None:
+        return None
+    with quiet(), warnings.catch_warnings():
+        warnings.simplefilter("ignore")
+        E = np.array(f())
+    return E.reshape(E.shape[0], 8, E.shape[-1]) if shape == "par" else E
+
+
+def expected_spectra(state_ham, shape):
     out = []
     for per_k in state_ham:
         row = []
         keys = CORNERS if shape == "par" else [1, 2, 3, 4]
         for c in keys:
             m = W.tla_mat(per_k[c] if shape == "par" else per_k[c - 1])
-            ev = np.linalg.eigvalsh(m)
-            if phonon:
-                ev = np.sign(ev) * np.sqrt(np.abs(ev))
-            row.append(ev)
+            row.append(np.linalg.eigvalsh(m))
         out.append(row)
     return np.array(out)
+
+
+def squares(E):
+    """phonon frequencies -> signed squares (the eigenvalues of the dynamical matrix); avoids the square root at a zero mode"""
+    return np.sign(E) * E ** 2
 
 
 def site_of(kind, shape):
@@ -98,57 +148,203 @@ def site_of(kind, shape):
     return f"{cls}.E_K_corners_{'parallel' if shape == 'par' else 'tetra'}"
 
 
-def replay_corner(rep, s, tag, phonon=False):
+def choose_window(exp, centre):
+    """Emax that cuts exactly the top band off (no energy within half the gap of it), or None"""
+    nb = exp.shape[-1]
+    if nb < 2:
+        return None
+    top = np.concatenate([exp[..., -1].ravel(), centre[..., -1].ravel()])
+    rest = np.concatenate([exp[..., :-1].ravel(), centre[..., :-1].ravel()])
+    tmin = float(top.min())
+    below = rest[rest < tmin - 1e-6]              # everything else is >= tmin - 1e-6, i.e. far above Emax
+    if below.size == 0:
+        return None
+    gap = tmin - float(below.max())
+    if gap < 1e-3:
+        return None
+    return tmin - gap / 2
+
+
+def replay_corner(rep, s, tag, phonon=False, window=False):
     kind, shape = s["kind"], s["shape"]
-    site = site_of(kind, shape) + (":phonon" if phonon else "")
+    site = site_of(kind, shape) + (":phonon" if phonon else "") + (":window" if window else "")
+    skew = bool(W.stable_hash((s["sys"], s["nk"], s["kp"])) & 1)
     detail = dict(config=tag, kind=kind, shape=shape, system=O._js(s["sys"]), NKFFT=list(s["nk"]), Kp_fullBZ_quarters=list(s["kp"]),
-                  half_dK_fullBZ_quarters=list(s["h"]), vertices_fullBZ_quarters=O._js(s["verts"]))
-    rep.case((tag, kind, shape, repr(s["sys"]), s["nk"], s["kp"], s["h"], s["verts"], phonon))
-    real, a = build_real(kind, W.soc_from_tla(s["sys"]) if kind == "SOC" else W.sys_from_tla(s["sys"]), phonon)
-    exp = expected_spectra(s["ham"], shape, phonon)
+                  half_dK_fullBZ_quarters=list(s["h"]), vertices_fullBZ_quarters=O._js(s["verts"]), skew_lattice=skew)
+    rep.case((tag, kind, shape, W.stable_key(s["sys"]), s["nk"], s["kp"], s["h"], s["verts"], phonon, window))
+    a = W.soc_from_tla(s["sys"]) if kind == "SOC" else W.sys_from_tla(s["sys"])
     differ = ""
     if kind == "SOC":
         differ = ":down_R_vectors_differ" if a["up"]["rs"] != a["dn"]["rs"] else ""
+    exp = expected_spectra(s["ham"], shape)
+    if window and exp.shape[-1] < 2:
+        return None
     try:
-        E, Eref = corner_energies(real, shape, s["nk"], s["kp"], s["h"], s["verts"])
-    except MachineryError:
-        raise
-    except Exception as ex:
-        rep.violation(f"{site}:raises{differ}", dict(detail, error=repr(ex)[:300]))
+        real, nspin = W.setup(build_real, kind, a, phonon, skew)
+        if nspin == 1:
+            site += ":nspin1"
+        pts = corner_points(shape, s["nk"], s["kp"], s["h"], s["verts"])
+        win = {}
+        if window:
+            centre = W.under_test(lambda: np.array(data_k(real, shape, s["nk"], s["kp"], s["h"], s["verts"]).E_K))
+            emax = choose_window(exp, centre)
+            if emax is None:
+                return None
+            win = dict(Emax=emax)
+            detail["Emax"] = emax
+        d = W.setup(data_k, real, shape, s["nk"], s["kp"], s["h"], s["verts"], **win)
+    except W.HarnessMisuse as e:
+        W.note_skip(f"corners:{kind}", e)
         return None
-    if E.shape != exp.shape:
-        rep.violation(f"{site}:shape{differ}", dict(detail, expected_shape=list(exp.shape), got_shape=list(E.shape)))
+    except W.UnderTestError as e:
+        rep.violation(f"{site}:raises{differ}", dict(detail, error=str(e)[:300], raised_in=e.site, during="construction of the system / data_K object"))
         return None
-    dev = float(np.max(np.abs(np.sort(E, axis=-1) - exp)))
+    ok, E = W.guarded(rep, f"{site}{differ}", detail, corner_call, d, shape, bool(window))
+    if not ok:
+        return None
+    if window:
+        selK = W.private("select_K", lambda: np.asarray(d.select_K, dtype=bool))
+        selB = W.private("select_B", lambda: np.asarray(d.select_B, dtype=bool))
+        if selK is None or selB is None:
+            return None
+        if selK.all() and selB.all():                     # how bands are selected is not part of the statement
+            O._bump(rep, "energy_window_cut_nothing", site)
+        expw = exp[selK][:, :, selB]
+    else:
+        expw = exp
+    if E.shape != expw.shape:
+        rep.violation(f"{site}:shape{differ}", dict(detail, expected_shape=list(expw.shape), got_shape=list(E.shape)))
+        return None
+    got = squares(E) if phonon else E
+    dev = float(np.max(np.abs(np.sort(got, axis=-1) - expw))) if E.size else 0.0
     if dev > 1e-8:
-        rep.violation(f"{site}:corner_energies{differ}", dict(detail, expected=exp.tolist(), got=E.tolist(), deviation=dev,
-                                                             note="expected = eigenvalues of the Hamiltonian at the corner k-points (specification, exact matrices)"))
-    dref = float(np.max(np.abs(np.sort(Eref, axis=-1) - exp))) if Eref.shape == exp.shape else float("inf")
-    if dref > 1e-8:
-        rep.violation(f"{site}_test:direct_evaluation", dict(detail, expected=exp.tolist(), got=Eref.tolist(), deviation=dref))
+        rep.violation(f"{site}:corner_energies{differ}", dict(detail, expected=expw.tolist(), got=got.tolist(), deviation=dev,
+                                                             note="expected = eigenvalues of the Hamiltonian at the corner k-points (specification, exact matrices)"
+                                                                  + ("; phonons: signed squares of the frequencies" if phonon else "")))
+    if not window:
+        # the class's own evaluation at the corner k-points (the statement's right-hand side, on the real code)
+        ok, Edir = W.guarded(rep, f"{site}:direct_evaluation", detail, direct_energies, real, pts)
+        if ok:
+            gd = squares(Edir) if phonon else Edir
+            dd = float(np.max(np.abs(np.sort(gd, axis=-1) - exp))) if gd.shape == exp.shape else float("inf")
+            if dd > 1e-8:
+                rep.violation(f"{site}:direct_evaluation", dict(detail, expected=exp.tolist(), got=gd.tolist(), deviation=dd,
+                                                               note="E_K of the class on the list of corner k-points vs the specification"))
+        if not phonon and W.stable_hash(("helper", s["sys"], s["kp"])) % 5 == 0:
+            try:
+                Eh = helper_energies(W.setup(data_k, real, shape, s["nk"], s["kp"], s["h"], s["verts"]), shape)
+                if Eh is not None and (Eh.shape != exp.shape or np.max(np.abs(np.sort(Eh, axis=-1) - exp)) > 1e-8):
+                    O._bump(rep, "package_test_helper_differs", site_of(kind, shape) + "_test")
+            except Exception as ex:                              # the helper is not part of the property
+                W.note_skip("E_K_corners_*_test", repr(ex))
     return max(dev, 0.0)
+
+
+def numeric_cases(rep, rng, thorough):
+    """deciding numeric part (1e-8): FFT grids with 3 points per direction and k.p systems with Cartesian k on a non-cubic cell:
+    corner energies vs the class's own evaluation at the corner k-points (no exact representation on the quarter grid)"""
+    nprng = np.random.RandomState(seed() + 3333)
+    maxdev, n = 0.0, 0
+    grids = [(3, 1, 1), (1, 3, 1), (3, 3, 1), (3, 1, 2)]
+    for it in range(24 if thorough else 6):
+        kind = ("R", "SOC", "KP")[it % 3]
+        shape = ("par", "tet")[(it // 3) % 2]
+        nk = np.array(grids[it % len(grids)])
+        skew = bool(it % 2)
+        nw = rng.choice([1, 2])
+        if kind == "SOC":
+            nspin = 1 if it % 4 == 1 else 2
+            up, dn = RND.rand_sys(rng, nw=nw, with_x=False, amp=2), RND.rand_sys(rng, nw=nw, with_x=False, amp=2)
+            a = dict(up=up, dn=up if nspin == 1 else dn, hassoc=True, al=1, P=None)
+            rsS, D = RND.rand_soc_data(rng, nw)
+            a.update(rsS=rsS, D=W.nspin1_D(D) if nspin == 1 else D)
+        else:
+            a = RND.rand_sys(rng, nw=max(nw, 2), with_x=False, dirs=3 if kind == "KP" else 2, amp=2)
+        kpf = nprng.rand(3) / nk                                   # Kp_fullBZ
+        if shape == "par":
+            dK = 1.0 / nk * np.array([1.0, 1.0, 0.5])
+            offs = [(np.array(c) - 0.5) * dK for c in CORNERS]
+            verts = None
+        else:
+            v = nprng.rand(4, 3) * 0.2
+            verts = v - v.mean(axis=0)
+            offs = list(verts)
+        detail = dict(kind=kind, shape=shape, NKFFT=nk.tolist(), Kp_fullBZ=kpf.tolist(), skew_lattice=skew,
+                      system=W.soc_json(dict(a, P=RND.PAULI)) if kind == "SOC" else W.sys_json(a))
+        site = site_of(kind, shape) + ":nkfft3"
+
+        def make():
+            import wannierberri as wb
+            from wannierberri.data_K import get_data_k_class_from_system
+            from wannierberri.grid.Kpoint import KpointBZparallel
+            from wannierberri.grid.Kpoint_tetra import KpointBZtetra
+            if kind == "SOC":
+                lattice = W.LAT_SKEW if skew else W.LAT_ID
+                nsp = 1 if a["dn"] is a["up"] else 2
+                real = W.make_soc(W.build(a["up"], lattice=lattice), None if nsp == 1 else W.build(a["dn"], lattice=lattice))
+                W.set_soc(real, a, 1, 1, nspin=nsp)
+            else:
+                real, _ = build_real(kind, a, False, skew)
+            with quiet(), warnings.catch_warnings():
+                warnings.simplefilter("ignore")
+                grid = wb.Grid(system=real, NKdiv=1, NKFFT=list(nk))
+                if shape == "par":
+                    Kp = KpointBZparallel(K=kpf * nk, dK=dK * nk, NKFFT=nk)
+                else:
+                    Kp = KpointBZtetra(vertices=verts * nk[None, :], K=kpf * nk, NKFFT=nk)
+                if np.max(np.abs(Kp.Kp_fullBZ - kpf)) > 1e-12:
+                    raise MachineryError("K-point not as intended")
+                cls = get_data_k_class_from_system(real)
+                d = cls(real, dK=Kp.Kp_fullBZ, grid=grid, Kpoint=Kp)
+                pf = np.asarray(grid.points_FFT)
+            return real, d, pf
+        try:
+            real, d, pf = W.setup(make)
+        except W.HarnessMisuse as e:
+            W.note_skip("corners:numeric", e)
+            continue
+        ok, E = W.guarded(rep, site, detail, corner_call, d, shape)
+        if not ok:
+            continue
+        pts = [[tuple(4 * (g + kpf + o)) for o in offs] for g in pf]
+        ok, Edir = W.guarded(rep, f"{site}:direct_evaluation", detail, direct_energies, real, pts)
+        if not ok:
+            continue
+        n += 1
+        rep.case(("nkfft3", it))
+        dev = float(np.max(np.abs(np.sort(E, axis=-1) - np.sort(Edir, axis=-1)))) if E.shape == Edir.shape else float("inf")
+        maxdev = max(maxdev, dev)
+        if dev > 1e-8:
+            rep.violation(f"{site}:corner_energies", dict(detail, deviation=dev, corners=E.tolist(), direct=Edir.tolist()))
+    rep.part("numeric_deciding_nkfft3_and_cartesian_kp", cases=n, max_deviation=maxdev, tolerance=1e-8)
 
 
 def check_c33(rep, thorough):
     rng = random.Random(seed() * 7919 + 33)
-    w = 16
-    rep.rule("TLC enumerates systems of each kind (real-space, spin-orbit with up/down R-sets smaller/equal/larger and with SOC terms, k.p), FFT grids, "
-             "K-points and cell shapes (parallelepiped, tetrahedron) with all corner k-points on the quarter grid; a case = one TLC state executed on "
-             "the real data_K class, corner energies compared with the eigenvalues of the specification's exact corner matrices (1e-8, sorted spectra) "
-             "and with the code's own direct evaluation; plus seeded random recorded calls whose integer characteristic polynomials are validated by TLC")
+    w = O.TLC_WORKERS
+    rep.rule("TLC enumerates systems of each kind (real-space, spin-orbit with one spin channel or with up/down R-sets smaller/equal/larger and "
+             "with SOC terms, k.p), FFT grids, K-points and cell shapes (parallelepiped, tetrahedron) with all corner k-points on the quarter grid; a "
+             "case = one TLC state executed on the real data_K class (identity or non-orthogonal lattice by a hash of the case), corner energies "
+             "compared with the eigenvalues of the specification's exact corner matrices (1e-8, sorted spectra) and with the class's own evaluation "
+             "on the list of corner k-points; a hash-drawn 1/7 of the cases is repeated phonon-flagged (real-space) and with an energy window "
+             "that cuts the top band; plus seeded random recorded calls whose integer characteristic polynomials are validated by TLC")
     rep.assume("K-points and cell sizes are chosen so that every corner lies on the quarter grid of the reciprocal cell (phases are powers of i); "
-               "the k.p system is the lattice Hamiltonian as a function of reduced k; phonon-flagged systems reuse the real-space cases")
+               "the k.p system is the lattice Hamiltonian as a function of reduced k (identity cell) or Cartesian k (non-cubic cell); phonon-flagged "
+               "systems reuse the real-space cases, their frequencies are compared through their signed squares; the order of the corners of a "
+               "parallelepiped is the interface to the tetrahedron weights and is required, as is the order of the vertices of a tetrahedron; "
+               "fftlib is the default; with an energy window the masks select_K / select_B of the object itself are used")
     if thorough:
         runs = [("c33_corners", dict(NWS="{1}", MAXHOPS=1, MAXHOPS2=1, MAXSOC=0, KDIRS=2, NGRIDS=5)),
                 ("c33_corners_nw2", dict(KINDS='{"R", "SOC"}', NWS="{2}", MAXHOPS=1, MAXHOPS2=1, MAXSOC=0, KDIRS=2, NGRIDS=1)),
                 ("c33_corners_3d", dict(KINDS='{"R", "KP"}', NWS="{1, 2}", MAXHOPS=1, KDIRS=3, NGRIDS=5)),
                 ("c33_corners_soc_terms", dict(KINDS='{"SOC"}', NWS="{1}", MAXHOPS=1, MAXHOPS2=1, MAXSOC=1, KDIRS=2, NGRIDS=3))]
     else:
-        runs = [("c33_corners", dict(NWS="{1}", MAXHOPS=1, MAXHOPS2=1, MAXSOC=0, KDIRS=2, NGRIDS=2)),
-                ("c33_corners_3d", dict(KINDS='{"R", "KP"}', NWS="{2}", MAXHOPS=1, KDIRS=3, NGRIDS=2)),
-                ("c33_corners_soc_terms", dict(KINDS='{"SOC"}', NWS="{1}", MAXHOPS=1, MAXHOPS2=1, MAXSOC=1, KDIRS=2, NGRIDS=1))]
+        runs = [("c33_corners", dict(NWS="{1}", MAXHOPS=1, MAXHOPS2=1, MAXSOC=0, KDIRS=2, NGRIDS=1)),
+                ("c33_corners_3d", dict(KINDS='{"R", "KP"}', NWS="{2}", MAXHOPS=1, KDIRS=3, NGRIDS=1)),
+                ("c33_corners_soc_terms", dict(KINDS='{"SOC"}', NWS="{1}", MAXHOPS=1, MAXHOPS2=0, MAXSOC=1, KDIRS=2, NGRIDS=1))]
     maxdev = 0.0
     classes = {}
+    nwin = 0
     for name, kw in runs:
         c, consts = cfg(**kw)
         st = O.enumerate_states("MC_SysAlgCorners.tla", c, name, workers=w)
@@ -157,59 +353,77 @@ def check_c33(rep, thorough):
             continue
         rep.add_tlc(name, st)
         n = 0
-        for s in ftable.dump_states(st):
+        for s in O.sorted_states(st, lambda s: W.stable_key((s["kind"], s["shape"], s["sys"], s["nk"], s["kp"]))):
             n += 1
             if name == "c33_corners_soc_terms" and not s["sys"]["hassoc"]:
                 continue                                                   # those cases are replayed in c33_corners
-            cls = (s["kind"], s["shape"], (s["kind"] == "SOC" and s["sys"]["up"]["rs"] != s["sys"]["dn"]["rs"]), s["kind"] == "SOC" and s["sys"]["hassoc"])
+            soc = s["kind"] == "SOC"
+            nspin1 = soc and s["sys"]["up"] == s["sys"]["dn"]
+            cls = (s["kind"], s["shape"], (soc and s["sys"]["up"]["rs"] != s["sys"]["dn"]["rs"]), soc and s["sys"]["hassoc"], nspin1)
             classes[cls] = classes.get(cls, 0) + 1
             d = replay_corner(rep, s, name)
             if d is not None:
                 maxdev = max(maxdev, d)
-            if s["kind"] == "R" and classes[cls] % 7 == 1:
+            pick = W.stable_hash(("sub", s["kind"], s["shape"], s["sys"], s["nk"], s["kp"])) % 7
+            if s["kind"] == "R" and (pick == 0 or classes[cls] == 1):
                 classes[("R-phonon", s["shape"])] = classes.get(("R-phonon", s["shape"]), 0) + 1
                 replay_corner(rep, s, name, phonon=True)
+            if pick == 1 or classes[cls] <= 2:
+                if replay_corner(rep, s, name, window=True) is not None:
+                    nwin += 1
+                    classes[("window", s["kind"])] = classes.get(("window", s["kind"]), 0) + 1
             if n in (2, 200):
                 rep.sample(dict(config=name, kind=s["kind"], shape=s["shape"], NKFFT=list(s["nk"]), Kp=list(s["kp"]), system=O._js(s["sys"]) if s["kind"] != "SOC" else "SOC"))
         if n != st["distinct"]:
             raise MachineryError(f"{name}: dump has {n} states, TLC reported {st['distinct']}")
-    need = [("R", "par"), ("R", "tet"), ("KP", "par"), ("KP", "tet")]
-    for k, sh in need:
-        if not any(c[0] == k and c[1] == sh for c in classes if len(c) == 4):
-            raise MachineryError(f"vacuous: no {k} {sh} case")
-    for differ in (False, True):
-        for sh in ("par", "tet"):
-            if not any(len(c) == 4 and c[0] == "SOC" and c[1] == sh and c[2] == differ for c in classes):
-                raise MachineryError(f"vacuous: no SOC {sh} case with R-sets {'different' if differ else 'equal'}")
-    if not any(len(c) == 4 and c[3] for c in classes):
-        raise MachineryError("vacuous: no SOC case with SOC terms")
+    if not rep.violations:
+        need = [("R", "par"), ("R", "tet"), ("KP", "par"), ("KP", "tet")]
+        for k, sh in need:
+            if not any(c[0] == k and c[1] == sh for c in classes if len(c) == 5):
+                raise MachineryError(f"vacuous: no {k} {sh} case")
+        for differ in (False, True):
+            for sh in ("par", "tet"):
+                if not any(len(c) == 5 and c[0] == "SOC" and c[1] == sh and c[2] == differ for c in classes):
+                    raise MachineryError(f"vacuous: no SOC {sh} case with R-sets {'different' if differ else 'equal'}")
+        if not any(len(c) == 5 and c[3] for c in classes):
+            raise MachineryError("vacuous: no SOC case with SOC terms")
+        if not any(len(c) == 5 and c[4] for c in classes):
+            raise MachineryError("vacuous: no SOC case with one spin channel")
+        if nwin == 0 and "select_K" not in W.SKIPPED and "select_B" not in W.SKIPPED:
+            raise MachineryError("vacuous: no case with an energy window that cuts a band")
     rep.part("replayed_classes", **{"/".join(map(str, k)): v for k, v in classes.items()}, max_deviation=maxdev, tolerance=1e-8)
     # sensitivity: the spin-orbit code before the repair is rejected by TLC, once because it raises, once because it is wrong
-    for invs, nm in ((["NeverRaises"], "c33_soc_up_phases_raise"), (["CornersAreDirect"], "c33_soc_up_phases_wrong")):
-        c0, _ = cfg(invariants=invs, KINDS='{"SOC"}', SHAPES='{"par"}', DownFrom='"up"')
-        st0 = tlc.run_tlc("MC_SysAlgCorners.tla", c0, nm, workers=4, coverage=False, timeout=900)
+    for invs, nm in ((["NeverRaises"], "c33_soc_up_phases_raise"), (["CornersAreDirect"], "c33_soc_up_phases_wrong"))[0 if thorough else 1:]:
+        c0, _ = cfg(invariants=invs, KINDS='{"SOC"}', SHAPES='{"par"}', NGRIDS=1, DownFrom='"up"')
+        st0 = O.run_tlc("MC_SysAlgCorners.tla", c0, nm, workers=2, timeout=900)
         if not st0.get("violation") or st0["violation"][1] != invs[0]:
             raise MachineryError(f"sensitivity self-test {nm} failed: {st0.get('violation')} {str(st0.get('error'))[:300]}")
         rep.part(nm, sensitivity_violation=invs[0])
+    numeric_cases(rep, rng, thorough)
 
     # ---- code -> spec: random systems, the code's corner spectra as integer characteristic polynomials
     recs = []
-    nrec = 200 if thorough else 24
+    nrec = 200 if thorough else 12
     grids_par = [((1, 1, 1), (0, 0, 0), (1, 1, 2)), ((2, 1, 1), (1, 2, 0), (1, 1, 2)), ((1, 2, 1), (3, 0, 2), (1, 1, 1)), ((2, 2, 1), (0, 0, 0), (2, 1, 2))]
     grids_tet = [((1, 1, 1), (1, 1, 1), ((-1, -1, -1), (3, -1, -1), (-1, 3, -1), (-1, -1, 3))), ((2, 1, 1), (0, 2, 0), ((-2, -1, 0), (2, -1, 0), (0, 2, 1), (0, 0, -1)))]
-    for i in range(nrec):
-        kind = ("R", "SOC", "KP")[i % 3]
-        shape = "par" if rng.random() < 0.6 else "tet"
+
+    def one_record(rng, i, kind=None, shape=None):
+        kind = kind or ("R", "SOC", "KP")[i % 3]
+        shape = shape or ("par" if rng.random() < 0.6 else "tet")
         nw = rng.choice([1, 2]) if kind == "SOC" else rng.choice([1, 2, 3])
         if kind == "SOC":
             up, dn = RND.rand_sys(rng, nw=nw, with_x=False, amp=2), RND.rand_sys(rng, nw=nw, with_x=False, amp=2)
-            if rng.random() < 0.3:
+            r = rng.random()
+            if r < 0.3:
                 dn = RND.rand_same_rs(rng, up, amp=2)
+            elif r < 0.5:
+                dn = up                                                # one spin channel
             socdata = RND.rand_soc_data(rng, nw) if rng.random() < 0.4 else None
             a = dict(up=up, dn=dn, hassoc=socdata is not None, rsS=[(0, 0, 0)],
                      D={st: {(0, 0, 0): np.zeros((nw, nw, 3), dtype=complex)} for st in ("00", "11", "01")}, P=RND.PAULI.copy(), al=0)
             if socdata is not None:
-                a.update(rsS=socdata[0], D=socdata[1], al=rng.choice([1, 2]), P=RND.exact_pauli_rot(1, 1))
+                one = W.sys_json(up) == W.sys_json(dn)                 # build_real then makes SystemSOC(up)
+                a.update(rsS=socdata[0], D=W.nspin1_D(socdata[1]) if one else socdata[1], al=rng.choice([1, 2]), P=RND.exact_pauli_rot(1, 1))
             sysj = W.soc_json(a)
             differ = ":down_R_vectors_differ" if up["rs"] != dn["rs"] else ""
         else:
@@ -220,27 +434,42 @@ def check_c33(rep, thorough):
         h, verts = (list(hv), []) if shape == "par" else ([0, 0, 0], [list(v) for v in hv])
         site = site_of(kind, shape)
         rep.case(("rec", kind, shape, i))
+        detail = dict(kind=kind, shape=shape, system=sysj, NKFFT=nk, Kp=kp)
         try:
-            real, _ = build_real(kind, a)
-            E, _ = corner_energies(real, shape, nk, kp, h, verts)
-        except MachineryError:
-            raise
-        except Exception as ex:
-            rep.violation(f"{site}:raises{differ}", dict(kind=kind, shape=shape, system=sysj, NKFFT=nk, Kp=kp, error=repr(ex)[:300]))
-            continue
+            real, _ = W.setup(build_real, kind, a, False, bool(i % 2))
+            d = W.setup(data_k, real, shape, nk, kp, h, verts)
+        except W.HarnessMisuse as e:
+            W.note_skip("corners:record", e)
+            return None
+        except W.UnderTestError as e:
+            rep.violation(f"{site}:raises{differ}", dict(detail, error=str(e)[:300], raised_in=e.site))
+            return None
+        ok, E = W.guarded(rep, f"{site}{differ}", detail, corner_call, d, shape)
+        if not ok:
+            return None
         try:
             cp = [[W.cp_ints(E[j, c], "corner spectrum") for c in range(E.shape[1])] for j in range(E.shape[0])]
         except W.NonIntegral as ex:
-            rep.violation(f"{site}:corner_energies{differ}", dict(kind=kind, shape=shape, system=sysj, NKFFT=nk, Kp=kp, error=str(ex),
+            rep.violation(f"{site}:corner_energies{differ}", dict(detail, error=str(ex),
                                                                  note="the spectrum of an integer matrix has an integer characteristic polynomial"))
+            return None
+        return dict(fn="corners", kind=kind, shape=shape, sys=sysj, nk=list(nk), kp=list(kp), h=h, verts=verts, cp=cp, differ=differ)
+    for i in range(nrec):
+        try:
+            r = one_record(rng, i)
+        except RND.PauliNotExact:
+            O._bump(rep, "records_skipped_pauli_choice_not_exact", "corners")
             continue
-        recs.append(dict(fn="corners", kind=kind, shape=shape, sys=sysj, nk=list(nk), kp=list(kp), h=h, verts=verts, cp=cp, _differ=differ))
+        if r is not None:
+            recs.append(r)
     from .sysalg import _validate, _selftest
-    for r in recs:
-        r["differ"] = r.pop("_differ")
     _validate(rep, recs, "c33", lambda r: site_of(r["kind"], r["shape"]) + r["differ"])
 
     def corrupt(r):
         r["cp"][0][0][-1] += 1
-    _selftest(rep, recs[0], corrupt, "c33", "equals_spec")
+    try:
+        r0 = one_record(random.Random(4711), 0, kind="R", shape="par")
+    except W.NonIntegral:
+        r0 = None
+    _selftest(rep, r0, corrupt, "c33", "equals_spec")
     return rep.finish()
